@@ -212,7 +212,7 @@ class kLeastAbsErrorsCycles(walkmodel.AbstractWalkModelDiGraph):
             flow_attr=self.flow_attr, edges_to_ignore=self.edges_to_ignore
         )
         # For integer weights the bound is rounded up: int() would truncate 2.9999999999999996 to 2 (and 0.9999999999999999 to 0)
-        self.w_max = self.k * (math.ceil(max_flow_value) if self.weight_type == int else float(max_flow_value))
+        self.w_max = int(self.k) * (math.ceil(max_flow_value) if self.weight_type == int else float(max_flow_value))
 
         self.pi_vars = {}
         self.path_weights_vars = {}
@@ -301,7 +301,7 @@ class kLeastAbsErrorsCycles(walkmodel.AbstractWalkModelDiGraph):
             name_prefix="ee",
             lb=0,
             # The load of an edge is the sum over the k walks of traversals times weight, each of which is at most w_max
-            ub=self.k * self.w_max,
+            ub=int(self.k) * self.w_max,
             var_type="integer" if self.weight_type == int and self._integral_flow_values else "continuous",
         )
 
